@@ -1659,8 +1659,10 @@ class Interp:
         self.emit("call", e, frame, callee=("func", fi), args=args, kwargs=kwargs,
                   self_av=self_av)
         depth = len(frame.stack)
-        if depth >= self.max_depth or sum(1 for f, _ in frame.stack if f.node is fi.node) >= 1 \
-                or frame.fi.node is fi.node:
+        # one re-entry is analysed (helpers that receive a closure calling them again, e.g. nested
+        # conditional expectations); the second one is cut
+        n_on_stack = sum(1 for f, _ in frame.stack if f.node is fi.node) + (1 if frame.fi.node is fi.node else 0)
+        if depth >= self.max_depth or n_on_stack >= 2:
             self.diag.add(f"recursion/depth cut at {fi.qual}")
             return derived(*args, *kwargs.values())
         if is_method and self_av is None:
@@ -1789,6 +1791,24 @@ class Interp:
             if name == "shuffle" and args:
                 self.emit("mutate", e, frame, target=args[0], how="shuffle(arg)")
             self.emit("mutate", e, frame, target=recv, how="draw:" + name)
+            return res
+        # scipy.stats distributions: `.rvs(size, random_state=g)` draws from g, from the
+        # distribution's own generator = numpy's global one when g is None / omitted
+        if name == "rvs":
+            g = kwargs.get("random_state")
+            if g is None or g.const is None:
+                if g is not None and any(isinstance(o, tuple) and (o[0].startswith("p:") or (o[0] == "self" and len(o[1]) == 1))
+                                         for o in g.deps):
+                    gen = AV(deps=g.deps | FS(["user_none"]), rng=True)
+                else:
+                    gen = AV(deps=FS(["global_rng"]), rng=True)
+            elif "maybe_default_none" in g.deps or "maybe_missing_kw" in g.deps:
+                gen = g.replace(rng=True, deps=g.deps | FS(["global_rng"]))
+            else:
+                gen = g.replace(rng=True)
+            self.emit("draw", e, frame, gen=gen, method=name, args=args, kwargs=kwargs)
+            if g is not None and g.const is not None:
+                self.emit("mutate", e, frame, target=g, how="draw:" + name)
             return res
         # external estimator fitted: draws from its random_state
         if name in EXT_FIT_METHODS:
